@@ -179,4 +179,22 @@ CHECKS = {
                      'msg_container and gzip_packed have hand-written (un)marshalers: only their ids are compared here, their wire behaviour in C02',
                      'invokeAfterMsg(s), invokeWithoutUpdates, invokeWithMessagesRange are documented as not implemented and are reported, not flagged'],
     ),
+    'C02': dict(
+        pkg='./c02', test='TestC02', level='exploration',
+        quick=dict(shards=4, checks=2500),
+        thorough=dict(shards=16, checks=40000, budget_s=3000),
+        level_text=('Schema-directed differential: for every definition of api_latest.tl and the wire-used definitions of mtproto.tl an abstract value is generated '
+                    'from the schema text, serialised by an independent TL encoder, bridged into the registered Go type by field position only, and (a) tl.Marshal '
+                    'must produce exactly the reference bytes (or refuse a >= 2^24-byte string), (b) the reference bytes must decode (unknown object and named type) '
+                    'to the bridged value. All flag presence patterns of every definition with <= 6 flag bits are enumerated.'),
+        technique='schema-directed differential testing against an independent TL codec (rapid + exhaustive flag-pattern enumeration)',
+        rule=('case = (definition, builder choices, forced flag pattern / string length). Non-trivial: the definition has >= 1 parameter and the value exercises a set flag bit, '
+              'a string of >= 254 bytes, a vector of >= 2 elements or a nested object; distinct by hash of (definition, choices).'),
+        must_hit=['feat:flag-bit-set', 'feat:string>=254', 'feat:vector>=2', 'feat:nested-object', 'feat:len-252..257', 'feat:len-0..5', 'feat:len-16777215', 'feat:len-16777216',
+                  'direction:encode', 'direction:decode', 'def:special:container', 'def:special:gzip', 'def:special:vector'],
+        fold={'def:': ('definitions_covered', 1225)},
+        assumptions=['present groups have at least one non-zero member (a present group of only zero scalars cannot be expressed as a Go value: the library defines presence by non-zero members)',
+                     'definitions whose id is not registered or whose Go type cannot hold the value are skipped and counted (they are reported by C13)',
+                     'not wire-used and excluded: future_salts/future_salt, msg_copy/message, destroy_session*, rpc_drop_answer, get_future_salts, ping_delay_disconnect, http_wait'],
+    ),
 }
